@@ -173,7 +173,7 @@ theorem inner_eq_spec (sa sb : Shape) (s : Arr (List Term)) (ha : 1 ≤ sa.lengt
   obtain ⟨r, hr, hsh, hget⟩ := inner_elem X Y k (Pos_append.1 hpb).1
   refine ⟨r, hr, hsh, ?_⟩
   intro d hd
-  obtain ⟨p, q, rfl, hp, hq⟩ := inShape_append_split hd
+  obtain ⟨p, q, rfl, hp, hq⟩ := mb_inShape_append_split hd
   rw [hget p q hp hq]
   simp [← hp.length_eq]
 
@@ -325,7 +325,7 @@ theorem dot_eq_spec (sa sb : Shape) (s : Arr (List Term)) (ha : 1 ≤ sa.length)
     simp only at hd
     have hd' : InShape d ((ba ++ bb) ++ [n]) := by simpa using hd
     obtain ⟨pq, j, rfl, hpq, hj⟩ := inShape_append_one hd'
-    obtain ⟨p, q, rfl, hp, hq⟩ := inShape_append_split hpq
+    obtain ⟨p, q, rfl, hp, hq⟩ := mb_inShape_append_split hpq
     rw [hget p q j hp hq hj]
     simp [← hp.length_eq, ← hq.length_eq]
   · obtain ⟨k', rfl⟩ := eq_singleton_of_length hb hb2
